@@ -61,7 +61,11 @@ computes a sufficient amount, Theorems/C07 proves it sufficient).
                               `raw`/`seq`; `Suspend` (suspense.rs: `now_or_never`, `use_context::<SuspenseContext>()`,
                               `next_id`, fallback `()` = `<!>`); `Suspense`/`Transition`/`Await`
                               (leptos/src/suspense_component.rs, transition.rs, await_.rs: `next_id`, future =
-                              tasks-empty effect then `children.resolve()`); `ErrorBoundary`.
+                              tasks-empty effect then `children.resolve()`; a `LocalResource` read under the boundary
+                              fires its `LocalResourceNotifier`: at once (`localNow`: the fallback is rendered in place)
+                              or after a future (`localWait`: the view future resolves to `None`, `replace = false`);
+                              server resources read synchronously (`resRead`) or awaited in a `Suspend` (`resSuspend`)
+                              are tasks the boundary waits for); `ErrorBoundary`.
 * `applyScripts`           — the browser side of out-of-order streaming, as the emitted script does it:
                               a `<template id="{id}f">` … `</template><script…>…</script>` block is taken out of the
                               text; `open`/`close` are the **last** comments `s-{id}o` / `s-{id}c` of the document so
@@ -569,6 +573,15 @@ inductive View where
   | suspend (f : FId) (v : View)
   | suspense (fb : Str) (nonce : Option Str) (vs : List View)
   | eb (vs : List View)
+  /-- `Suspend::new(async { res.await; v })` awaiting a server resource (`OnceResource`/`Resource`/`AsyncDerived`) -/
+  | resSuspend (f : FId) (v : View)
+  /-- `move || res.get().map(|_| v)`: a server resource read synchronously (meant for the children of a boundary) -/
+  | resRead (f : FId) (v : View)
+  /-- a `LocalResource` read synchronously, or awaited first thing in a `Suspend`, by the children of a boundary:
+      the boundary's `LocalResourceNotifier` fires during `children.dry_resolve()` -/
+  | localRead
+  /-- `Suspend::new(async { rx_f.await; local.await; … })`: the notifier fires once `f` has completed -/
+  | localAwait (f : FId)
   deriving Repr, Inhabited
 
 /-- where a view is rendered: outside every `Suspense` (`top`) or as the awaited children of a `Suspense`
@@ -587,9 +600,50 @@ def directDeps : View → List FId
   | .suspend f v => f :: directDeps v
   | .suspense _ _ _ => []
   | .eb vs => directDepsL vs
+  | .resSuspend f v => f :: directDeps v
+  | .resRead f v => f :: directDeps v
+  | .localRead => []
+  | .localAwait _ => []
 def directDepsL : List View → List FId
   | [] => []
   | v :: vs => directDeps v ++ directDepsL vs
+end
+
+mutual
+/-- a `LocalResource` is read while the boundary walks its children (`dry_resolve`): the boundary renders its
+    fallback at once (`Some(None) => Either::Left(self.fallback)`, leptos/src/suspense_component.rs) -/
+def localNow : View → Bool
+  | .raw _ => false
+  | .seq vs => localNowL vs
+  | .suspend _ _ => false
+  | .suspense _ _ _ => false
+  | .eb vs => localNowL vs
+  | .resSuspend _ _ => false
+  | .resRead _ _ => false
+  | .localRead => true
+  | .localAwait _ => false
+def localNowL : List View → Bool
+  | [] => false
+  | v :: vs => localNow v || localNowL vs
+end
+
+mutual
+/-- the future after which a `LocalResource` is awaited by a child `Suspend` (the first one) -/
+def localWait : View → Option FId
+  | .raw _ => none
+  | .seq vs => localWaitL vs
+  | .suspend _ _ => none
+  | .suspense _ _ _ => none
+  | .eb vs => localWaitL vs
+  | .resSuspend _ _ => none
+  | .resRead _ _ => none
+  | .localRead => none
+  | .localAwait f => some f
+def localWaitL : List View → Option FId
+  | [] => none
+  | v :: vs => match localWait v with
+    | some f => some f
+    | none => localWaitL vs
 end
 
 mutual
@@ -605,11 +659,34 @@ def compile (ooo : Bool) : Ctx → View → List Op
   | .direct, .suspend _ v => compile ooo .direct v
   | .nested, .suspend _ v => compile ooo .direct v
   | _, .suspense fb nonce vs =>
-    let fut : Fut := { deps := directDepsL vs, tick := true }
-    Op.nextId ::
-      (if ooo then [Op.fallback fb, Op.ooo fut true (compileL ooo .direct vs) nonce]
-       else [Op.async fut (compileL ooo .direct vs)])
+    if localNowL vs then
+      -- `fut.now_or_never()` is `Some(None)`: the fallback is rendered in place, nothing is streamed
+      [Op.nextId, Op.sync fb]
+    else match localWaitL vs with
+    | some f =>
+      -- the boundary's future resolves to `None` once `f` has completed: the fallback stays
+      let fut : Fut := { deps := [f], tick := true }
+      Op.nextId ::
+        (if ooo then [Op.fallback fb, Op.ooo fut false [] nonce]
+         else [Op.async fut [Op.sync fb]])
+    | none =>
+      let fut : Fut := { deps := directDepsL vs, tick := true }
+      Op.nextId ::
+        (if ooo then [Op.fallback fb, Op.ooo fut true (compileL ooo .direct vs) nonce]
+         else [Op.async fut (compileL ooo .direct vs)])
   | c, .eb vs => [Op.sub (compileL ooo c vs)]
+  | .top, .resSuspend f v =>
+    -- the resource's task has to run before the future can be ready: `tick`
+    let fut : Fut := { deps := [f], tick := true }
+    [Op.ite fut (compile ooo .top v)
+      (Op.nextId ::
+        (if ooo then [Op.fallback "<!>".toList, Op.ooo fut true (compile ooo .top v) none]
+         else [Op.async fut (compile ooo .top v)]))]
+  | .direct, .resSuspend _ v => compile ooo .direct v
+  | .nested, .resSuspend _ v => compile ooo .direct v
+  | c, .resRead _ v => compile ooo c v
+  | _, .localRead => []
+  | _, .localAwait _ => []
 def compileL (ooo : Bool) : Ctx → List View → List Op
   | _, [] => []
   | c, v :: vs => compile ooo c v ++ compileL ooo c vs
@@ -624,6 +701,10 @@ def directDepsOld : View → List FId
   | .suspend f _ => [f]
   | .suspense _ _ _ => []
   | .eb vs => directDepsOldL vs
+  | .resSuspend f _ => [f]
+  | .resRead f v => f :: directDepsOld v
+  | .localRead => []
+  | .localAwait _ => []
 def directDepsOldL : List View → List FId
   | [] => []
   | v :: vs => directDepsOld v ++ directDepsOldL vs
@@ -647,6 +728,17 @@ def compileOld (ooo : Bool) : Ctx → View → List Op
       (if ooo then [Op.fallback fb, Op.ooo fut true (compileOldL ooo .direct vs) nonce]
        else [Op.async fut (compileOldL ooo .direct vs)])
   | c, .eb vs => [Op.sub (compileOldL ooo c vs)]
+  | .top, .resSuspend f v =>
+    let fut : Fut := { deps := [f], tick := true }
+    [Op.ite fut (compileOld ooo .top v)
+      (Op.nextId ::
+        (if ooo then [Op.fallback "<!>".toList, Op.ooo fut true (compileOld ooo .top v) none]
+         else [Op.async fut (compileOld ooo .top v)]))]
+  | .direct, .resSuspend _ v => compileOld ooo .nested v
+  | .nested, .resSuspend f v => [Op.ite { deps := [f], tick := true } (compileOld ooo .nested v) []]
+  | c, .resRead _ v => compileOld ooo c v
+  | _, .localRead => []
+  | _, .localAwait _ => []
 def compileOldL (ooo : Bool) : Ctx → List View → List Op
   | _, [] => []
   | c, v :: vs => compileOld ooo c v ++ compileOldL ooo c vs
@@ -658,8 +750,14 @@ def viewDoc : View → Str
   | .raw s => s
   | .seq vs => viewDocL vs
   | .suspend _ v => viewDoc v
-  | .suspense _ _ vs => viewDocL vs
+  | .suspense fb _ vs =>
+    -- a boundary that reads a local resource keeps its fallback on the server
+    if localNowL vs || (localWaitL vs).isSome then fb else viewDocL vs
   | .eb vs => viewDocL vs
+  | .resSuspend _ v => viewDoc v
+  | .resRead _ v => viewDoc v
+  | .localRead => []
+  | .localAwait _ => []
 def viewDocL : List View → Str
   | [] => []
   | v :: vs => viewDoc v ++ viewDocL vs
